@@ -13,7 +13,7 @@ import z3
 
 from .values import (Unsupported, EngineError, is_z3, is_boolish, is_intish, is_realish,
                      is_numish, concretize, simp, Z, ZB, ZR, EnumV, Opt, SymList, EmptyList,
-                     SymSet, Obj, ActionV, ClassRef, TypeV, FuncV, RangeV, INF, Inf, STORAGE_CODES,
+                     SymSet, Obj, ActionV, ClassRef, TypeV, FuncV, RangeV, DictV, INF, Inf, STORAGE_CODES,
                      STEPTYPE)
 from .source import AnchorError
 
@@ -206,6 +206,11 @@ class Engine:
         self.covers = []              # (site, pc) reachability checks
         self.delegated = []
         self.inputs = {}
+        self.uses_lemmas = set()
+        self.concrete_nondet = []
+        self.concrete_limit = 10 ** 9
+        self.concrete_failed = []
+        self.concrete_memo = {}
         self._qcache = {}
         self.max_paths = 4000
         self.npaths = 0
@@ -223,6 +228,13 @@ class Engine:
                 ln = z3.Int(n + ".len")
                 return SymList(arrs, ln, comps, tup=(len(comps) > 1 or (len(ty) > 2 and ty[2])),
                                immutable=(tag == "tuplelist")), [ln >= 0]
+            if tag == "dict":
+                items, cons = {}, []
+                for k, t in ty[1].items():
+                    v, cs = self.fresh(t, "%s[%s]" % (hint, k))
+                    items[k] = v
+                    cons += cs
+                return DictV(items), cons
             if tag == "opt":
                 v, cs = self.fresh(ty[1], hint)
                 return Opt(z3.Bool(n + ".none"), v), cs
@@ -263,6 +275,8 @@ class Engine:
             return SymSet(arr, card), [card >= 0, z3.ForAll([x], z3.Implies(z3.Select(arr, x), card >= 1))]
         if ty == "none":
             return None, []
+        if ty == "dict":
+            raise Unsupported("fresh dict without declared keys")
         raise EngineError("unknown type %r" % (ty,))
 
     def sort_of(self, ty):
@@ -328,6 +342,10 @@ class Engine:
         if st.spec_mode:
             return
         trivial = cond is True
+        if self.concrete:
+            if cond is not True:
+                self.concrete_failed.append((label, getattr(node, "lineno", 0), str(cond)[:200]))
+            return
         if trivial and kind in ("implicit",):
             return
         fi = st.frames[-1].func or self.fi
@@ -746,6 +764,11 @@ class Engine:
         return self.cmp(op, a, b)
 
     def contains(self, cont, x, st, node):
+        if isinstance(cont, DictV):
+            key = self.dict_key(x)
+            if key is None:
+                raise Unsupported("membership of a symbolic key in a dict")
+            return key in cont.items
         if isinstance(cont, (tuple, list)):
             return Or(*[self.equal(x, y) for y in cont])
         if isinstance(cont, frozenset):
@@ -811,13 +834,23 @@ class Engine:
         return frozenset(self.ev(e, st) for e in n.elts) if all(
             isinstance(e, ast.Constant) for e in n.elts) else tuple(self.ev(e, st) for e in n.elts)
 
+    def dict_key(self, kk):
+        if isinstance(kk, EnumV) and kk.sort == "str" and isinstance(kk.code, int):
+            return self.reg.string_of(kk.code)
+        if isinstance(kk, int) and not isinstance(kk, bool):
+            return kk
+        return None
+
     def ev_Dict(self, n, st):
         d = {}
         for k, v in zip(n.keys, n.values):
-            kk = self.ev(k, st)
-            key = kk.code if isinstance(kk, EnumV) else kk
-            d[("k", repr(key))] = self.ev(v, st)
-        return ("dict", d)
+            if k is None:
+                raise Unsupported("dict unpacking in a literal")
+            key = self.dict_key(self.ev(k, st))
+            if key is None:
+                raise Unsupported("dict key that is not a constant string or int")
+            d[key] = self.ev(v, st)
+        return DictV(d)
 
     def ev_Lambda(self, n, st):
         return ("lambda", n, len(st.frames) - 1)
@@ -869,6 +902,21 @@ class Engine:
         return self.index_value(base, idx, st, n)
 
     def index_value(self, base, idx, st, node):
+        if isinstance(base, DictV):
+            key = self.dict_key(idx)
+            if key is not None:
+                if key not in base.items:
+                    self.oblige(st, False, "key_present", node)
+                    return 0
+                return base.items[key]
+            if is_intish(idx):
+                keys = [k for k in base.items if isinstance(k, int)]
+                self.oblige(st, Or(*[self.equal(idx, k) for k in keys]), "key_present", node)
+                res = base.items[keys[-1]]
+                for k in reversed(keys[:-1]):
+                    res = Ite(self.equal(idx, k), base.items[k], res)
+                return res
+            raise Unsupported("dict subscript with a symbolic non-int key")
         if isinstance(base, Opt):
             self.oblige(st, Not(base.isnone), "none_is_not_subscriptable", node)
             base = base.val
@@ -999,6 +1047,8 @@ class Engine:
             st.assume(c)
             return None
         if name == "nondet_int":
+            if self.concrete:
+                return self.concrete_nondet.pop(0)
             v, cs = self.fresh("int", "nd")
             return v
         if name == "nondet_bool":
@@ -1030,6 +1080,12 @@ class Engine:
         raise Unsupported("call of %s (no contract, not a builtin)" % name)
 
     def apply_uf(self, fn, args):
+        if self.concrete and fn.name() == "CNT" and isinstance(args[1], int):
+            lst, k, v = args
+            code = v.code if isinstance(v, EnumV) else v
+            if isinstance(lst, EmptyList):
+                return 0
+            return sum(1 for i in range(k) if simp(z3.Select(lst.arrs[0], i)) == code)
         zs = []
         for a in args:
             if isinstance(a, EnumV):
@@ -1064,6 +1120,15 @@ class Engine:
         if not isinstance(lam, ast.Lambda):
             raise Unsupported("quantifier body must be a lambda")
         names = [a.arg for a in lam.args.args]
+        if self.concrete and isinstance(lo, int) and isinstance(hi, int):
+            # cross-check mode: enumerate
+            vals = []
+            for tup in itertools.product(range(lo, hi), repeat=len(names)):
+                st2 = st.fork()
+                st2.frames.append(Frame(dict(zip(names, tup)), len(st2.frames) - 1, st.frames[-1].func))
+                st2.spec_mode += 1
+                vals.append(self.truth(self.ev(lam.body, st2), st2, n))
+            return And(*vals) if name == "forall" else Or(*vals)
         vs = [z3.Int("%s!%d" % (a, next(self.fresh_id))) for a in names]
         st2 = st.fork()
         st2.frames.append(Frame(dict(zip(names, vs)), len(st2.frames) - 1, st.frames[-1].func))
@@ -1295,6 +1360,8 @@ class Engine:
         if st.spec_mode and not c.pure:
             raise Unsupported("impure call %s inside a specification" % c.name)
         bound = self.bind_args(c, args, kw, st, node)
+        if self.concrete:
+            return self.concrete_call(c, bound, st, node)
         site = (st.frames[-1].func or self.fi).site(node, "call")
         cst = self.contract_state(c, bound, st)
         # preconditions
